@@ -92,6 +92,11 @@ impl World {
         let dir = SimDir::new(tracer.clone());
         Self::on_dir(dir, tracer, cfg, true)
     }
+    pub fn new_quiet(tracer: &Tracer, cfg: &Cfg, quiet: bool) -> World {
+        let dir = SimDir::new(tracer.clone());
+        dir.set_quiet(quiet);
+        Self::on_dir(dir, tracer, cfg, true)
+    }
     pub fn on_dir(dir: SimDir, tracer: &Tracer, cfg: &Cfg, create: bool) -> World {
         let (schema, f) = schema();
         let mut settings = IndexSettings::default();
@@ -476,3 +481,69 @@ pub fn install_sink(tracer: &Tracer, regs: Arc<Mutex<(Vec<String>, Vec<String>)>
 }
 
 pub type OpMap = HashMap<String, Value>;
+
+
+/// Recover a crash image with the real code: open, checksum, read back, then writer + add +
+/// commit + gc, listing.  Everything is an observation; nothing is judged here.
+pub fn recover_image(img: crate::simdir::Fs, visible_managed: &[String], probe_id: u64) -> Value {
+    let sink = Tracer::sink();
+    let dir = SimDir::from_image(img, sink.clone());
+    dir.set_quiet(true);
+    let r = std::panic::catch_unwind(std::panic::AssertUnwindSafe(|| -> Value {
+        let obs = observe_dir(&dir, &sink);
+        if obs["ok"] != json!(true) {
+            return json!({"obs": obs});
+        }
+        let index = match Index::open(dir.clone()) {
+            Ok(i) => i,
+            Err(e) => return json!({"obs": obs, "reopen_err": errclass(&e)}),
+        };
+        let damaged: Value = match index.validate_checksum() {
+            Ok(set) => {
+                let mut v: Vec<String> = set.iter().map(|p| p.to_string_lossy().to_string()).collect();
+                v.sort();
+                json!(v)
+            }
+            Err(e) => json!([format!("ERR {}", errclass(&e))]),
+        };
+        // the recovered index accepts a writer, a commit and a garbage collection
+        let cfg = Cfg::default();
+        let mut w = World::on_dir(dir.clone(), &sink, &cfg, false);
+        let mut after = serde_json::Map::new();
+        match w.open_writer() {
+            Err(e) => {
+                after.insert("writer".into(), json!(e));
+            }
+            Ok(()) => {
+                after.insert("writer".into(), json!("ok"));
+                let a = w.exec(&json!({"op":"add","id":probe_id,"t":"zz","v":0}));
+                after.insert("add".into(), a["ok"].clone());
+                let c = w.exec(&json!({"op":"commit"}));
+                after.insert("commit".into(), c["ok"].clone());
+                let g = w.exec(&json!({"op":"gc"}));
+                after.insert("gc".into(), g["ok"].clone());
+                let wm = w.exec(&json!({"op":"wait_merges"}));
+                after.insert("wait".into(), wm["ok"].clone());
+                let obs2 = observe_dir(&dir, &sink);
+                let mut metafiles: Vec<String> = vec![];
+                if let Ok(metas) = Index::open(dir.clone()).and_then(|i| i.searchable_segment_metas()) {
+                    for m in metas {
+                        for f in m.list_files() {
+                            metafiles.push(f.to_string_lossy().to_string());
+                        }
+                    }
+                }
+                let listing: Vec<String> = dir.raw_listing().iter().map(|p| p.to_string_lossy().to_string()).collect();
+                let orphans: Vec<Value> = listing.iter().filter(|p| !metafiles.contains(p)).map(|p| json!([p, visible_managed.contains(p)])).collect();
+                after.insert("obs".into(), obs2);
+                after.insert("orphans".into(), json!(orphans));
+                after.insert("locks".into(), json!(dir.lock_files()));
+            }
+        }
+        json!({"obs": obs, "damaged": damaged, "after": Value::Object(after)})
+    }));
+    match r {
+        Ok(v) => v,
+        Err(_) => json!({"panic": true}),
+    }
+}
